@@ -263,7 +263,10 @@ static void one(unsigned pat) {
 #endif
 
 	REACH("tree api call returns");
+#ifndef ET_PAT                           /* outcome REACHes: only where every match pattern is enumerated */
+#if !(defined(ET_OP_REMOVE) && ET_NK == 0)
 	if (res == KSI_OK) REACH("ok");
+#endif
 #if !defined(ET_OP_APPEND) && ET_NK >= 2
 	if (res == KSI_INVALID_STATE && cnt >= 2) REACH("duplicate tag refused");
 #endif
@@ -288,8 +291,10 @@ static void one(unsigned pat) {
 	if (res == KSI_OK && cnt == 1) REACH("child found");
 	if (res == KSI_OK && cnt == 0) REACH("tag absent");
 #endif
+#endif
 #ifdef ET_OOM
 	if (res == KSI_OUT_OF_MEMORY) REACH("allocation failure");
+	if (res != KSI_OUT_OF_MEMORY && g_fails == 0) REACH("no allocation failed");
 #endif
 
 #ifdef ET_CLEANUP
@@ -302,8 +307,85 @@ static void one(unsigned pat) {
 #endif
 }
 
+#ifdef ET_OP_SEQ
+/* End-to-end statement of the property for an edit SEQUENCE through the public API: an element that has no children (again)
+ * after appendElement + removeElement is the tree "tag, flags, empty payload"; it fits the length field, so it must be
+ * serialized, as header only.  Everything symbolic but the shape. */
+static void seq(void) {
+	KSI_TlvElement *x; unsigned char o[8]; size_t len = 0, kb = nondet_size(); int r1, r2, r3; unsigned xt;
+	static unsigned char enc[4];
+	/* P = the parsed encoding of an element with an empty payload (either header form) */
+	enc[0] = nondet_uchar(); enc[1] = nondet_uchar(); enc[2] = 0; enc[3] = 0;
+	if (!(enc[0] & 0x80)) enc[1] = 0;
+	P = NULL;
+	r1 = KSI_TlvElement_parse(enc, (enc[0] & 0x80) ? 4 : 2, &P);
+	__CPROVER_assert(r1 == KSI_OK && P != NULL, "tree api sequence: the encoding of an element with an empty payload parses");
+	if (P == NULL) return;
+	xt = nondet_uint(); __CPROVER_assume(xt <= SPEC_TLV_MAX_TAG);
+	x = mk_leaf(0, xt);
+	if (x == NULL || x->ptr == NULL) return;
+	__CPROVER_assume(x->ftlv.hdr_len + x->ftlv.dat_len > 0);
+	r1 = KSI_TlvElement_appendElement(P, x);
+	__CPROVER_assert(r1 == KSI_OK, "tree api sequence: append to a new element succeeds");
+	r2 = KSI_TlvElement_removeElement(P, xt, NULL);
+	__CPROVER_assert(r2 == KSI_OK, "tree api sequence: removing the only child succeeds");
+	__CPROVER_assert(KSI_TlvElementList_length(P->subList) == 0 && x->ref == 1, "tree api sequence: the view is empty again, the child released once");
+	r3 = KSI_TlvElement_serialize(P, o, sizeof(o), &len, 0);
+	__CPROVER_assert(r3 == KSI_OK, "tree api sequence: a childless element fits the length field and is therefore serialized (property: refused only when the content exceeds the length field)");
+	__CPROVER_assert(IMPLIES(r3 == KSI_OK, len == spec_tlv_enc_hdr_len(P->ftlv.tag, 0)), "tree api sequence: a childless element serializes as its header only");
+	__CPROVER_assert(IMPLIES(r3 == KSI_OK && kb < len && len <= 4, o[kb] == spec_tlv_enc_hdr_byte(P->ftlv.tag, P->ftlv.is_nc, P->ftlv.is_fwd, 0, kb)), "tree api sequence: header octets of the childless element (witness index)");
+	REACH("sequence ran");
+}
+#endif
+#ifdef ET_OP_FREE
+/* KSI_TlvElement_new / ref / free: a tree parent { ET_NK leaves } built through the API; extra references taken with
+ * KSI_TlvElement_ref are given back one by one; the live-block counter of the funnels returns to zero exactly when the last
+ * reference is released and not before; buffers that a node does not own survive (the harness releases them afterwards;
+ * a double free would fail the precondition of CBMC's free; --memory-leak-check closes the run). */
+static void free_job(void) {
+	size_t i, extra = nondet_size(); long live_built; _Bool own[NC]; unsigned char *b[NC];
+	KSI_TlvElement *n = NULL; int r;
+	__CPROVER_assume(extra <= 2);
+	g_live = 0;
+	r = KSI_TlvElement_new(&n);
+	__CPROVER_assert(r == KSI_OK && n != NULL && n->ref == 1 && n->ptr == NULL && n->ptr_own == 0 && n->subList == NULL &&
+			n->ftlv.tag == 0 && n->ftlv.dat_len == 0 && n->ftlv.hdr_len == 0 && n->ftlv.off == 0 && n->ftlv.is_nc == 0 && n->ftlv.is_fwd == 0, "new: a zeroed element with one reference");
+	__CPROVER_assert(g_live == 1, "new: exactly one block");
+	P = n;
+	if (KSI_TlvElementList_new(&P->subList) != KSI_OK) return;
+	for (i = 0; i < ET_NK; i++) {
+		C[i] = mk_leaf(i, nondet_uint());
+		if (C[i] == NULL || C[i]->ptr == NULL) return;
+		own[i] = nondet_bool(); C[i]->ptr_own = own[i]; b[i] = C[i]->ptr;
+		if (own[i]) g_live++;                                                /* an owned buffer counts as a block of the funnels */
+		if (KSI_TlvElement_appendElement(P, C[i]) != KSI_OK) return;       /* the list takes its own reference */
+		KSI_TlvElement_free(C[i]);                                           /* the harness gives its reference back: ref 2 -> 1, nothing released */
+		__CPROVER_assert(C[i]->ref == 1, "free: giving back one of two references releases nothing");
+	}
+	live_built = g_live;
+	for (i = 0; i < 2; i++) if (i < extra) { __CPROVER_assert(KSI_TlvElement_ref(P) == P, "ref: returns its argument"); }
+	__CPROVER_assert(P->ref == 1 + extra, "ref: one more reference per call");
+	for (i = 0; i < 2; i++) if (i < extra) { KSI_TlvElement_free(P); __CPROVER_assert(g_live == live_built, "free: nothing is released while references remain"); }
+	__CPROVER_assert(P->ref == 1, "free: one reference less per call");
+	KSI_TlvElement_free(P);
+	{
+		long borrowed = 0;
+		for (i = 0; i < ET_NK; i++) if (!own[i]) borrowed++;
+		__CPROVER_assert(g_live == 0, "free: the last reference releases the element, its child list, every child and every buffer a child owns - each exactly once");
+		for (i = 0; i < ET_NK; i++) if (!own[i]) { __CPROVER_assert(__CPROVER_r_ok(b[i], 1), "free: a borrowed buffer is never released"); free(b[i]); }
+	}
+	KSI_TlvElement_free(NULL);
+	REACH("tree released");
+	if (extra == 2) REACH("two extra references");
+}
+#endif
+
 void harness(void) {
-#ifdef ET_SYMTAGS
+#if defined(ET_OP_SEQ)
+	seq();
+#elif defined(ET_OP_FREE)
+	free_job();
+#elif defined(ET_SYMTAGS)
 	one(0);
 #else
 #ifdef ET_PAT
